@@ -5,13 +5,31 @@ open Model
 open Conv
 open A07lib
 
-(* the passes field without its "^..." suffix, and the configured list *)
-let split_cfg (p : string) : string * n list list option =
+(* the passes field without its "^..." / "~..." suffixes, the configured list, the middlewares
+   ("~d<loc>.<hexname>,f<n>,i"); a case with middlewares only has an empty configured list *)
+let parse_mw (t : string) : mw =
+  if t = "i" then MwInitFail
+  else if String.length t > 0 && t.[0] = 'f' then MwFailAt (n_of_int (int_of_string (String.sub t 1 (String.length t - 1))))
+  else if String.length t > 0 && t.[0] = 'd' then
+    (match String.index_opt t '.' with
+     | Some i -> MwDate (bytes_of_hex (String.sub t (i + 1) (String.length t - i - 1)))
+     | None -> failwith ("bad middleware " ^ t))
+  else failwith ("bad middleware " ^ t)
+
+let split_opts (p : string) : string * n list list option * mw list =
+  let (p, mws) = (match String.index_opt p '~' with
+    | None -> (p, [])
+    | Some i -> (String.sub p 0 i,
+                 List.map parse_mw (String.split_on_char ',' (String.sub p (i + 1) (String.length p - i - 1))))) in
   match String.index_opt p '^' with
-  | None -> (p, None)
+  | None -> (p, (if mws = [] then None else Some []), mws)
   | Some i ->
       let s = String.sub p (i + 1) (String.length p - i - 1) in
-      (String.sub p 0 i, Some (List.map bytes_of_hex (String.split_on_char '.' s)))
+      (String.sub p 0 i, Some (List.map bytes_of_hex (String.split_on_char '.' s)), mws)
+
+let split_cfg (p : string) : string * n list list option =
+  let (p, c, _) = split_opts p in (p, c)
+let mws_of (p : string) : mw list = let (_, _, m) = split_opts p in m
 
 let print_mheaders (hs : (n list * n list list) list) : string =
   let hs = List.sort (fun (a, _) (b, _) -> cmp_bytes a b) hs in
@@ -26,12 +44,12 @@ let print_mreq (r : mreqsum) : string =
 (* what materialising a delivery gives: the printed request, an unusable ammo, a panic *)
 type built = Req of string | Invalid | Panicked
 
-let print_run_b (bld : 'e -> built) (k : int) (rs : 'e sres list) : string =
+let print_run_b (bld : int -> 'e -> built) (k : int) (rs : 'e sres list) : string =
   let rec go n rs acc =
     match rs with
     | [] -> List.rev ((if n >= k then "more" else "truncated") :: acc)
     | SDeliver e :: r ->
-        (match bld e with
+        (match bld (n + 1) e with
          | Req q -> go (n + 1) r (q :: acc)
          | Invalid -> List.rev ("invalid" :: acc)
          | Panicked -> List.rev ("panic" :: acc))
@@ -43,21 +61,20 @@ let print_run_b (bld : 'e -> built) (k : int) (rs : 'e sres list) : string =
   in
   String.concat " " (go 0 rs [])
 
-let print_expected_b (bld : 'e -> built) (k : int) (es : 'e list) : string =
+let print_expected_b (bld : int -> 'e -> built) (k : int) (es : 'e list) : string =
   print_run_b bld k (List.map (fun e -> SDeliver e) (cycle_take (nat_of_int k) es es))
 
-(* model side: Ammo.BuildRequest with the merged header map *)
-let bld_mentry (e : mentry) : built =
-  match build_m url_parse e with
-  | MBOk q -> Req (print_mreq q)
-  | MBInvalid -> Invalid
-  | MBPanic -> Panicked
+let of_bres (b : bres) : built =
+  match b with MBOk q -> Req (print_mreq q) | MBInvalid -> Invalid | MBPanic -> Panicked
 
-(* specification side: the entry as the file says it + the configured defaults *)
-let bld_spec (cfg : (n list * n list list) list) (e : entry) : built =
-  match spec_request url_parse cfg e with
-  | Some q -> Req (print_mreq q)
-  | None -> Invalid
+(* model side: Ammo.BuildRequest with the merged header map, then the middlewares (i-th Acquire) *)
+let bld_mentry (ms : mw list) (i : int) (e : mentry) : built =
+  of_bres (acquire_m ms (n_of_int i) (build_m url_parse e))
+
+(* specification side: the entry as the file says it + the configured defaults, then the middlewares *)
+let bld_spec (ms : mw list) (cfg : (n list * n list list) list) (i : int) (e : entry) : built =
+  of_bres (acquire_m ms (n_of_int i)
+             (match spec_request url_parse cfg e with Some q -> MBOk q | None -> MBInvalid))
 
 (* http.ReadRequest answer "1 D:m:u:host:hdrs:body:" -> its fields *)
 let parse_summary (d : string) =
@@ -75,25 +92,28 @@ let raw_request (buf : n list) =
   | None -> None
   | Some a -> (match split_blank a with ["1"; d] -> parse_summary d | _ -> None)
 
-let print_raw m u host hs body tag =
-  Printf.sprintf "D:%s:%s:%s:%s:%s:%s" m u (hex_of_bytes host) (print_mheaders hs) body (hex_of_bytes tag)
+(* raw requests keep the method / URL / body fields of the oracle answer as printed *)
+let raw_built (ms : mw list) (i : int) m u host hs body tag : built =
+  let q = { mr_method = bytes_of_hex m; mr_url = bytes_of_hex u; mr_host = host; mr_headers = hs;
+            mr_body = bytes_of_hex body; mr_tag = tag } in
+  of_bres (acquire_m ms (n_of_int i) (MBOk q))
 
 (* model side: RawAmmo.BuildRequest = ReadRequest (oracle) + EnrichRequestWithHeaders(commonHeaders) *)
-let bld_mraw (e : mrentry) : built =
+let bld_mraw (ms : mw list) (i : int) (e : mrentry) : built =
   match raw_request e.mrb_buf with
   | None -> Invalid
   | Some (m, u, host, hs, body) ->
       (match raw_enrich e.mrb_common host hs with
-       | Some (host', hs') -> Req (print_raw m u host' hs' body e.mrb_tag)
+       | Some (host', hs') -> raw_built ms i m u host' hs' body e.mrb_tag
        | None -> Panicked)
 
 (* specification side *)
-let bld_raw_spec (cfg : (n list * n list list) list) (e : rentry) : built =
+let bld_raw_spec (ms : mw list) (cfg : (n list * n list list) list) (i : int) (e : rentry) : built =
   match raw_request e.rb_buf with
   | None -> Invalid
   | Some (m, u, host, hs, body) ->
       let (host', hs') = spec_raw cfg host hs in
-      Req (print_raw m u host' hs' body e.rb_tag)
+      raw_built ms i m u host' hs' body e.rb_tag
 
 let mentry_body (e : mentry) = e.me_body
 let mentry_with_body (e : mentry) b = { e with me_body = b }
